@@ -31,6 +31,9 @@ type Witness struct {
 	// is applied instead of the regexp edits: a seeded breaking change kept
 	// under seeded/. Expect may be empty: any violation of the property counts.
 	Patch string `json:"patch,omitempty"`
+	// Silent marks a behaviour-preserving refactoring (property "*": applies to every property): the check must
+	// report nothing new on it. A report is a false alarm of the checker.
+	Silent bool `json:"silent,omitempty"`
 }
 
 func LoadWitnesses(verif string) ([]Witness, error) {
@@ -50,17 +53,20 @@ type WitnessResult struct {
 	Index   int    `json:"index"`
 	Note    string `json:"note"`
 	Expect  string `json:"expect"`
-	Status  string `json:"status"` // flagged | not-flagged | not-applicable | does-not-compile
+	Status  string `json:"status"` // flagged | not-flagged | silent | false-alarm | not-applicable | does-not-compile
 	Reports string `json:"reports,omitempty"`
 }
 
 // RunWitness applies witness idx and runs the property's rules on the overlay.
-func RunWitness(repo, verif string, idx int) WitnessResult {
+func RunWitness(repo, verif string, idx int, prop string) WitnessResult {
 	ws, err := LoadWitnesses(verif)
 	if err != nil || idx < 0 || idx >= len(ws) {
 		return WitnessResult{Index: idx, Status: "not-applicable", Reports: "cannot load witness"}
 	}
 	w := ws[idx]
+	if w.Property == "*" {
+		w.Property = prop
+	}
 	res := WitnessResult{Index: idx, Note: w.Note, Expect: w.Expect}
 	if w.Patch != "" {
 		return runPatchWitness(repo, verif, idx, w)
@@ -174,6 +180,7 @@ func runPatchWitness(repo, verif string, idx int, w Witness) WitnessResult {
 			}
 		}()
 		c := NewCtx(p, w.Property, "quick")
+		c.VerifDir = verif
 		pc.Run(c)
 		known := map[string]bool{}
 		if fs, err := LoadFindings(filepath.Join(verif, "known_findings.jsonl")); err == nil {
@@ -185,12 +192,23 @@ func runPatchWitness(repo, verif string, idx int, w Witness) WitnessResult {
 		}
 		for _, o := range c.Obls {
 			if o.Verdict == "violated" && !known[o.Key()] {
-				viol = append(viol, o.Rule)
+				if w.Silent {
+					viol = append(viol, o.Rule+"|"+o.Construct)
+				} else {
+					viol = append(viol, o.Rule)
+				}
 			}
 		}
 	}()
 	sort.Strings(viol)
 	res.Reports = strings.Join(viol, ",")
+	if w.Silent {
+		res.Status = "silent"
+		if len(viol) > 0 {
+			res.Status = "false-alarm"
+		}
+		return res
+	}
 	res.Status = "not-flagged"
 	for _, v := range viol {
 		if w.Expect == "" || strings.HasSuffix(v, "."+w.Expect) {
@@ -209,7 +227,7 @@ func RunWitnessesOf(self, repo, verif, prop string, seed int) []WitnessResult {
 	}
 	var idxs []int
 	for i, w := range ws {
-		if w.Property == prop {
+		if w.Property == prop || w.Property == "*" {
 			idxs = append(idxs, i)
 		}
 	}
@@ -219,7 +237,7 @@ func RunWitnessesOf(self, repo, verif, prop string, seed int) []WitnessResult {
 		idxs = append(idxs[k:], idxs[:k]...)
 	}
 	results := make([]WitnessResult, len(idxs))
-	sem := make(chan struct{}, 6)
+	sem := make(chan struct{}, 8)
 	var wg sync.WaitGroup
 	for n, i := range idxs {
 		wg.Add(1)
@@ -227,7 +245,7 @@ func RunWitnessesOf(self, repo, verif, prop string, seed int) []WitnessResult {
 			defer wg.Done()
 			sem <- struct{}{}
 			defer func() { <-sem }()
-			cmd := exec.Command(self, "witness", fmt.Sprint(i), "--repo", repo, "--verif", verif)
+			cmd := exec.Command(self, "witness", "--repo", repo, "--verif", verif, fmt.Sprint(i), prop)
 			out, err := cmd.Output()
 			var r WitnessResult
 			if jerr := json.Unmarshal(out, &r); jerr != nil {
